@@ -48,6 +48,8 @@ class Stop:
         # so only the library's own cancellation can get rid of it
         self.freeze = bool(tape.draw(2, "freeze"))
         self.frozen = 0
+        self.frozen_at_end = 0
+        self.ended = False
         self.executor = None
         self.hook_calls = 0
         self.hook_snapshots = []
@@ -79,6 +81,21 @@ class Stop:
                     continue
                 e.hanging = True
                 self.frozen += 1
+
+    def on_end(self):
+        """The response (stream) ended normally: whatever is still in flight now is abandoned
+        work, which only the library's own cancellation can get rid of."""
+        if self.kind == "abort" and not self.fired:
+            return  # the abort is still to come; it will freeze
+        self.ended = True
+        frozen_before = self.frozen
+        freeze = self.freeze
+        self.freeze = True
+        try:
+            self.on_stop()
+        finally:
+            self.freeze = freeze
+        self.frozen_at_end = self.frozen - frozen_before
 
     def _abort(self):
         self.fired = True
@@ -178,7 +195,7 @@ def evaluate(sim, scn, reqs, results, stops, status, knobs, stats=None):
         kind = stop.kind if stop else "none"
         hanging_planned = any(fp.fault == "hang" for fp in rs.planner.fields.values())
         frozen = stop is not None and stop.frozen > 0
-        stopped = stop is not None and (stop.fired or rr.stopped)
+        stopped = stop is not None and (stop.fired or rr.stopped or stop.ended)
         # 1. release
         if rr.waiting is not None:
             blocked_on_hanging = hanging_planned and not stopped
@@ -207,12 +224,15 @@ def evaluate(sim, scn, reqs, results, stops, status, knobs, stats=None):
         # 3. hanging externals must have been cancelled by the library once stopped
         if stopped or not hanging_planned:
             still = [e for e in sim.externals
-                     if e.owner == i and e.hanging and e.is_pending()]
+                     if e.owner == i and e.hanging and e.is_pending()
+                     # what an unfinished task still waits for is reported with that task (3b)
+                     and not _awaited_by_task(e, left)]
             if still and rr.waiting is None:
                 vs.append(Violation(PROP, "hanging_external_not_cancelled", {
                     "stop": kind, "kind": still[0].kind,
                     "signal": stop is not None and stop.controller is not None,
                     "abort_phase": _phase(stop, rr), "frozen_at_stop": frozen,
+                    "frozen_at_end_of_response": bool(stop is not None and stop.frozen_at_end),
                     # does any task still wait for it, or was the awaitable abandoned un-awaited?
                     "still_awaited": any(bool(getattr(e.fut, "_callbacks", None)) for e in still),
                     "awaited_by_background_work": _awaited_by_background(still[0], stop, rr),
@@ -315,6 +335,28 @@ def _waiters_of(fut):
             if hasattr(v, "add_done_callback"):
                 out.append(v)
     return out
+
+
+def _awaited_by_task(ext, tasks):
+    """Is the external (transitively) awaited by one of the given unfinished tasks?"""
+    if not tasks:
+        return False
+    try:
+        ids = set(map(id, tasks))
+        seen, todo = set(), [ext.fut]
+        for _ in range(200):
+            if not todo:
+                break
+            f = todo.pop()
+            if id(f) in seen:
+                continue
+            seen.add(id(f))
+            if id(f) in ids:
+                return True
+            todo.extend(_waiters_of(f))
+    except Exception:  # noqa: BLE001
+        pass
+    return False
 
 
 def _awaited_by_background(ext, stop, rr=None):
